@@ -758,6 +758,28 @@ func (env *CEnv) call(c *ECall) CVal {
 			return CVal{T: Or(Ge(SliceArr(v.T), env.old.alloc), Eq(SliceArr(v.T), IntLit(0))), Type: tBool}
 		}
 		env.fail("fresh of sort %s", v.T.Sort)
+	case "local":
+		// local(x): the local variable x of the function under verification, even
+		// when a parameter / result alias of the same name exists
+		id, ok := c.Args[0].(*EIdent)
+		if !ok || len(c.Args) != 1 {
+			env.fail("local() takes one identifier")
+		}
+		if env.frame != nil {
+			for _, fr := range env.framesOuterFirst() {
+				one := *env
+				one.frame = &Frame{fn: fr.fn, regs: fr.regs, locals: fr.locals, loopLocals: fr.loopLocals, loopEntry: fr.loopEntry}
+				if a := one.localAlloc(id.Name); a != nil {
+					if t, ok := fr.locals[a].(Term); ok {
+						return CVal{T: t, Type: a.Type().(*types.Pointer).Elem()}
+					}
+				}
+				if hv, ok := one.heapLocal(id.Name); ok {
+					return hv
+				}
+			}
+		}
+		env.fail("unknown identifier %q", id.Name)
 	case "atloop":
 		// value of an expression in the heap as it was when the enclosing loop was entered
 		var le *Snapshot
